@@ -1003,6 +1003,25 @@ pub fn canon_report(r: &Reader) -> String {
 
 /// Short stable digest of a panic message for violation keys (location stripped of line numbers is kept).
 pub fn panic_key(msg: &str) -> String {
-    let s: String = msg.chars().filter(|c| !c.is_ascii_digit()).take(70).collect();
-    s.replace('\n', " ")
+    // drop digits and everything quoted (data dependent), keep the wording
+    let mut out = String::new();
+    let mut quote: Option<char> = None;
+    for c in msg.chars() {
+        match quote {
+            Some(q) => {
+                if c == q {
+                    quote = None;
+                }
+            }
+            None => {
+                if c == '\'' || c == '`' || c == '"' {
+                    quote = Some(c);
+                    out.push('_');
+                } else if !c.is_ascii_digit() {
+                    out.push(if c == '\n' { ' ' } else { c });
+                }
+            }
+        }
+    }
+    out.chars().take(70).collect()
 }
